@@ -67,21 +67,55 @@ def read_beam(repo):
                     block_assign, loop = b, st
     if block_assign is None:
         raise TranslateError("_Compute_P_e_pg: block assignment `P_e_pg[...] = P[...]` inside a loop not found")
-    if src.get("lines") != "np.repeat(range(N),N)" or src.get("columns") != "np.array(list(range(N))*N)" or src.get("N") != "P.shape[-1]":
-        raise TranslateError("_Compute_P_e_pg: index vectors lines/columns are not the row-major (row, column) enumeration of a NxN block")
-    if _norm(ast.unparse(loop.iter)) != "range(dof_n*nPe//3)" or not isinstance(loop.target, ast.Name):
+    if not isinstance(loop.target, ast.Name) or _norm(ast.unparse(loop.iter)) != "range(dof_n*nPe//3)":
         raise TranslateError("_Compute_P_e_pg: loop over the 3x3 blocks not recognised")
     n = loop.target.id
-    tgt = _norm(ast.unparse(block_assign.targets[0]))
-    if tgt != "P_e_pg[:,0,lines+%s*N,columns+%s*N]" % (n, n):
-        raise TranslateError("_Compute_P_e_pg: block target `%s` not recognised" % tgt)
-    val = _norm(ast.unparse(block_assign.value))
-    if val == "P[:,lines,columns]":
-        out["block_transposed"] = False
-    elif val == "P[:,columns,lines]":
-        out["block_transposed"] = True
+    tsl = block_assign.targets[0].slice
+    tel = tsl.elts if isinstance(tsl, ast.Tuple) else []
+    if len(tel) != 4 or _norm(ast.unparse(tel[0])) != ":" or _norm(ast.unparse(tel[1])) != "0":
+        raise TranslateError("_Compute_P_e_pg: block target `%s` not recognised" % ast.unparse(block_assign.targets[0]))
+
+    def shifted(e):       # <name> + n * <Nname>
+        if isinstance(e, ast.BinOp) and isinstance(e.op, ast.Add) and isinstance(e.left, ast.Name) and isinstance(e.right, ast.BinOp) \
+                and isinstance(e.right.op, ast.Mult) and {type(e.right.left), type(e.right.right)} == {ast.Name}:
+            names = {e.right.left.id, e.right.right.id}
+            if n in names and len(names) == 2:
+                return e.left.id, (names - {n}).pop()
+        raise TranslateError("_Compute_P_e_pg: block index `%s` is not <index vector> + %s * N" % (ast.unparse(e), n))
+    (tA, N1), (tB, N2) = shifted(tel[2]), shifted(tel[3])
+    if N1 != N2 or src.get(N1) not in ("P.shape[-1]", "3"):
+        raise TranslateError("_Compute_P_e_pg: block size is not P.shape[-1]")
+    kinds = {}
+    for nm in (tA, tB):
+        d = src.get(nm)
+        if d == "np.repeat(range(%s),%s)" % (N1, N1):
+            kinds[nm] = "row"
+        elif d == "np.array(list(range(%s))*%s)" % (N1, N1):
+            kinds[nm] = "col"
+        else:
+            raise TranslateError("_Compute_P_e_pg: index vector %s = %s is not a row-major enumeration of the block" % (nm, d))
+    if sorted(kinds.values()) != ["col", "row"]:
+        raise TranslateError("_Compute_P_e_pg: the two index vectors do not enumerate (row, column) pairs")
+    v = block_assign.value
+    swapped_src = False
+    if not isinstance(v, ast.Subscript):
+        raise TranslateError("_Compute_P_e_pg: block value `%s` not recognised" % ast.unparse(v))
+    base = _norm(ast.unparse(v.value))
+    if base in ("P.transpose(0,2,1)", "P.transpose((0,2,1))", "np.transpose(P,(0,2,1))", "np.swapaxes(P,1,2)", "np.swapaxes(P,-1,-2)", "np.swapaxes(P,-2,-1)"):
+        swapped_src = True
+    elif base != "P":
+        raise TranslateError("_Compute_P_e_pg: block value `%s` not recognised" % ast.unparse(v))
+    vel = v.slice.elts if isinstance(v.slice, ast.Tuple) else []
+    if len(vel) != 3 or _norm(ast.unparse(vel[0])) != ":" or not all(isinstance(e, ast.Name) for e in vel[1:]):
+        raise TranslateError("_Compute_P_e_pg: block value `%s` not recognised" % ast.unparse(v))
+    vA, vB = vel[1].id, vel[2].id
+    if (vA, vB) == (tA, tB):
+        tr_ = False
+    elif (vA, vB) == (tB, tA):
+        tr_ = True
     else:
-        raise TranslateError("_Compute_P_e_pg: block value `%s` not recognised" % val)
+        raise TranslateError("_Compute_P_e_pg: block value indices (%s, %s) are not the target's index vectors" % (vA, vB))
+    out["block_transposed"] = tr_ != swapped_src
     if "beam._Calc_P()" not in src.get("P", "") and not any(
             isinstance(s2, ast.Assign) and "beam._Calc_P()" in _norm(ast.unparse(s2.value)) for s2 in ast.walk(fn)):
         raise TranslateError("_Compute_P_e_pg: P is not filled from beam._Calc_P()")
